@@ -11,6 +11,10 @@ package cluster
 // ---- C14: deployment manager event loop -----------------------------------------
 // a teardown request has been received by this manager
 //@ ghost TdReq: bool
+// teardowns started; the loop was left because shutdown was requested / because the hostnames could not be reserved
+//@ ghost TdStarted: int
+//@ ghost ShutReq: bool
+//@ ghost HostErr: bool
 
 // worker goroutine wrapper: exactly one result will be delivered on the returned channel (A-CHAN)
 //@ func (*deploymentManager).do
@@ -46,16 +50,22 @@ package cluster
 //@   ensures ChanKind == old(ChanKind)[result := 1] && ChanPending == old(ChanPending)[result := true]
 //@ func (*deploymentManager).startTeardown
 //@   requires [serial] InFlight == 0
-//@   modifies dm.state, ghost ChanKind, ghost ChanPending, ghost InFlight
-//@   ensures dm.state == dsTeardownActive && result != nil && fresh(result) && InFlight == 1
+//@   modifies dm.state, ghost ChanKind, ghost ChanPending, ghost InFlight, ghost TdStarted
+//@   oncall cluster.(*deploymentManager).do 1 ghost TdStarted := TdStarted + 1
+//@   ensures dm.state == dsTeardownActive && result != nil && fresh(result) && InFlight == 1 && TdStarted == old(TdStarted) + 1
 //@   ensures ChanKind == old(ChanKind)[result := 1] && ChanPending == old(ChanPending)[result := true]
 
 //@ func (*deploymentManager).run
 //@   nopanic explicit
-//@   requires InFlight == 0 && !TdReq && dm.state == dsDeployActive && dm.mgroup != nil
+//@   requires InFlight == 0 && !TdReq && dm.state == dsDeployActive && dm.mgroup != nil && TdStarted == 0 && !ShutReq && !HostErr
 //@   requires dm.updatech != nil && dm.teardownch != nil && ChanKind[dm.updatech] == 0 && ChanKind[dm.teardownch] == 0
-//@   modifies dm.state, dm.mgroup, dm.monitor, dm.withdrawal, ghost ChanKind, ghost ChanPending, ghost InFlight, ghost TdReq
+//@   modifies dm.state, dm.mgroup, dm.monitor, dm.withdrawal, ghost ChanKind, ghost ChanPending, ghost InFlight, ghost TdReq, ghost TdStarted, ghost ShutReq, ghost HostErr
 //@   select 1 case 4 ghost TdReq := true
+//@   select 1 case 1 ghost ShutReq := true
+//@   select 1 case 0 ghost HostErr := HostErr || recv != nil
+//@   loop 1 invariant [tdpending] TdReq && TdStarted == 0 ==> dm.state == dsTeardownPending
+//@   loop 1 invariant [tdcount] TdStarted >= 0 && ((dm.state == dsTeardownActive || dm.state == dsTeardownComplete) ==> TdStarted >= 1) && !ShutReq && !HostErr
+//@   ensures [teardown] TdReq && !ShutReq && !HostErr ==> TdStarted >= 1
 //@   loop 1 invariant InFlight == ite(runch != nil, 1, 0)
 //@   loop 1 invariant runch != nil ==> ChanKind[runch] == 1 && ChanPending[runch]
 //@   loop 1 invariant reserveHostnamesCh != nil ==> runch == nil && ChanKind[reserveHostnamesCh] == 0
